@@ -102,6 +102,13 @@ func spoilsOf(line []byte, full bool, r rng) []spoil {
 			}
 			out = append(out, spoil{s, fmt.Sprintf("%s field %s (columns %d-%d)", fill.name, w.Src, lo+1, hi), fill.name})
 		}
+		// a VALID two-byte UTF-8 character in a text field: the record keeps its byte length but holds one
+		// character less than its layout (decoders that count characters see a short record)
+		if w.Width >= 2 && kindOfConv(w.Conv) == 'S' {
+			s := cp()
+			s[lo], s[lo+1] = 0xC3, 0xA9
+			out = append(out, spoil{s, fmt.Sprintf("two-byte character in field %s (columns %d-%d)", w.Src, lo+1, lo+2), "multibyte"})
+		}
 	}
 	return out
 }
@@ -123,7 +130,8 @@ func runC18(cfg *config) *Report {
 	}
 	var cases []kase
 	for fi := 0; fi < nFiles; {
-		f, err := genFile(r, genOpts{maxCL: 2, maxBundles: 2, maxItems: 2, mutateP: 30})
+		// forward and return files in turn: every record type occurs, most of them more than once
+		f, err := genFile(r, genOpts{maxCL: 2, maxBundles: 2, maxItems: 2, mutateP: 30, kind: 1 + fi%2})
 		if err != nil {
 			continue
 		}
